@@ -118,6 +118,18 @@ def impl(case):
         out["replace_text"] = _apply(JSONPatch([{"op": "replace", "path": text, "value": deep(case["new"])}]), deep(case["doc"]))
         out["remove_text"] = _apply(JSONPatch().remove(text), deep(case["doc"]))
         out["test_text"] = _apply(JSONPatch([{"op": "test", "path": text, "value": deep(m.obj)}]), deep(case["doc"]))
+    # the document given as JSON TEXT, patched several times in a row: every application starts from what the text says
+    if isinstance(case["doc"], (dict, list)):
+        jtxt = json.dumps(case["doc"])
+        m2 = [x for x in jsonpath.finditer(case["query"], jtxt) if list(x.parts) == case["loc"]]
+        out["text_document_same"] = bool(m2)
+        if m2:
+            p2 = m2[0].pointer()
+            got = [_apply(JSONPatch().remove(p2), jtxt), _apply(JSONPatch().replace(p2, deep(case["new"])), jtxt), _apply(JSONPatch().test(p2, deep(m.obj)), jtxt),
+                   _apply(JSONPatch().remove(p2), jtxt)]
+            out["text_document_same"] = got == [out["remove"], out["replace"], out["test"], out["remove"]]
+            if not out["text_document_same"]:
+                out["text_document_counterexample"] = got
     return out
 
 
@@ -141,6 +153,9 @@ def decode(sx, case):
         for a, b in (("replace_text", "replace"), ("remove_text", "remove"), ("test_text", "test")):
             model[a] = model[b]
             spec[a] = spec[b]
+    if isinstance(case["doc"], (dict, list)):
+        model["text_document_same"] = True
+        spec["text_document_same"] = True
     return {"model": model, "spec": spec, "in_domain": wf[1] == "true"}
 
 
@@ -148,6 +163,8 @@ def project(case, res, dec=None):
     if res.get("no_such_match"):
         return res
     out = {"pointer": res["pointer"]}
+    if "text_document_same" in res:
+        out["text_document_same"] = res["text_document_same"]
     for k in ("test", "replace", "remove", "test_other", "replace_text", "remove_text", "test_text"):
         if k not in res:
             continue
